@@ -161,7 +161,7 @@ int main(int argc, char** argv) {
    }
    if (th) for (auto& w0 : raw12_basic) { if (!vf::want_case()) continue; for (auto& w1 : raw12_basic) for (auto& w2 : raw12_basic) all_modes({w0, w1, w2}, "raw3"); vf::nontrivial_by_construction(); if (vf::deadline_hit()) break; }
    // ---- (b) tokens
-   const std::vector<std::string> tok = {"-a", "-b", "-ab", "-ba", "--bee", "-v", "-v5", "--value", "--value=5", "--value=", "--val", "--=v", "--", "-", "", "5", "x", "-5", "1,2", "1,,2", ",", "-l", "--list=1,2", "-l1", "-t", "1,x", "-r", "-B", "9",
+   const std::vector<std::string> tok = {"-a", "-b", "-ab", "-ba", "--bee", "-v", "-v5", "--value", "--value=5", "--value=", "--val", "--=v", "--", "-", "", "5", "x", "-5", "1,2", "1,,2", "3,-1", ",", "-l", "--list=1,2", "-l1", "-t", "1,x", "-r", "-B", "9",
                                          "-V", "12", "-D", "-k", "a,1", "-L", "-LL", "-c", "-C", "-g", "-x", "-y", "(", ")", "!", "--cmd", "-h", "--help", "--help-arg=v", "--help-arg", "--list-arg-vars", "--endvalues", "--arg-file", "-s", "--str=-s", "-abv", "-abv5", "-ab-v", "-ab--value=5", "-a=b", "-o"};
    vf::fact("tokens", std::to_string(tok.size()));
    const int maxtok = th ? 4 : 3;
